@@ -46,7 +46,7 @@ CLAIMED = {
    note="Pebble's own correctness for a coherent comparer is trusted; empty probe keys are skipped for comparison gets (an empty bound means unbounded for the engine iterators).",
    technique="algebraic law checking on generated tuples + differential test of the engine against a sorted reference"),
  "C08": dict(engine="repl", level="exploration",
-   text="Real leader and follower controllers wired by harness-owned in-memory streams: 2..32 concurrent writers (WriteBlock and Write callbacks) with RF 1/2/3/5, a yield/sleep hook between offset allocation and WAL append, per-link ack delays and a cursor cut/re-attach; hook and stream monitors check every write succeeds, own-response (version id read back), contiguous distinct WAL entries, consecutive apply offsets, commit monotone <= head and never beyond what RF/2 followers acknowledged for the whole prefix, commit == head at quiescence; runs under the race detector. The quorum tracker is additionally driven directly against a three-line model (incl. acks ahead of the head). A third part (C08.stream, engine client) runs a real standalone server on loopback gRPC and pipelines raw WriteStream requests whose answers are recognisable: the i-th answer of a stream must belong to its i-th request, version ids increase along a stream.",
+   text="Real leader and follower controllers wired by harness-owned in-memory streams: 2..32 concurrent writers (WriteBlock and Write callbacks) with RF 1/2/3/5, a yield/sleep hook between offset allocation and WAL append, per-link ack delays and a cursor cut/re-attach; hook and stream monitors check every write succeeds, own-response (version id read back), contiguous distinct WAL entries, consecutive apply offsets, commit monotone <= head and never beyond what RF/2 followers acknowledged for the whole prefix, commit == head at quiescence; runs under the race detector. The quorum tracker is additionally driven directly against a three-line model (incl. acks ahead of the head). The tracker part also registers waiting callers (in offset order, several per offset) that must be completed exactly when their offset commits; the pipeline part checks at the WAL's group sync that nothing appended after a flush began is reported as synced by it. A third part (C08.stream, engine client) runs a real standalone server on loopback gRPC and pipelines raw WriteStream requests whose answers are recognisable: the i-th answer of a stream must belong to its i-th request, version ids increase along a stream.",
    note="'All succeed' is restated as: every write returns OK before a generous watchdog while the quorum is healthy (watchdog => inconclusive, error => violation).",
    technique="invariant monitors on hooks and on the replication streams under concurrent stress + race detector + component model check"),
  "C03": dict(engine="repl", level="exploration",
